@@ -36,7 +36,7 @@ class ClusterSite(collections.namedtuple('ClusterSite', 'ci R')):
     def fromcrysunit(cls, crys, unit_pos):
         """Return a ClusterSite corresponding to unit cell position ``unit_pos`` in crystal ``crys``"""
         cart_pos = crys.unit2cart(np.zeros(crys.dim, dtype=int), unit_pos)
-        return cls.fromcryscart(cart_pos)
+        return cls.fromcryscart(crys, cart_pos)
 
     def __eq__(self, other):
         """Test for equality--we don't bother checking dx"""
